@@ -167,6 +167,11 @@ ArmZero(c, m) == /\ ~stuck /\ Has(c, m) /\ Log([op |-> "Cmd", c |-> c, via |-> m
                  /\ IF fs.armed /\ (SameCtx(The(c, m)) \/ ~Fixed) THEN Rollback ELSE UNCHANGED <<fabrics, fs, sess, resum, stuck>>
                  /\ UNCHANGED <<kv, resumKv, nextGen, snap, acked>>
 
+\* AdministratorCommissioning::RevokeCommissioning from any administrator: the fail-safe is forced to expire
+Revoke(c) == /\ ~stuck /\ Has(c, "case") /\ Log([op |-> "Cmd", c |-> c, via |-> "case", cmd |-> "revoke"])
+             /\ IF fs.armed THEN Rollback ELSE UNCHANGED <<fabrics, fs, sess, resum, stuck>>
+             /\ UNCHANGED <<kv, resumKv, nextGen, snap, acked>>
+
 \* the lazy writer of the resumption cache, and a power cut + start-up from the store
 PersistResum == /\ resumKv # resum /\ resumKv' = resum /\ Log([op |-> "Wait", ms |-> 2500])
                 /\ UNCHANGED <<fabrics, kv, fs, sess, resum, nextGen, snap, stuck, acked>>
@@ -182,7 +187,7 @@ FactoryReset == /\ fabrics' = [i \in Idx |-> NULL] /\ kv' = [i \in Idx |-> NULL]
                 /\ UNCHANGED <<nextGen, snap>>
 
 Next == /\ nops < MaxOps
-        /\ \/ \E c \in Ctl : Pase(c) \/ Case(c) \/ Case2(c) \/ Use(c) \/ Label(c) \/ Complete(c) \/ Csru(c) \/ Unoc(c)
+        /\ \/ \E c \in Ctl : Pase(c) \/ Case(c) \/ Case2(c) \/ Use(c) \/ Label(c) \/ Complete(c) \/ Csru(c) \/ Unoc(c) \/ Revoke(c)
            \/ \E c \in Ctl, m \in {"pase", "case"} : Arm(c, m) \/ ArmZero(c, m) \/ Csr(c, m) \/ AddRoot(c, m) \/ AddNoc(c, m)
            \/ \E c \in Ctl, f \in Idx : RemoveFabric(c, f)
            \/ ExpireTimer \/ PersistResum \/ Restart \/ FactoryReset
